@@ -182,6 +182,7 @@ def run(res, programs, tier):
     res.rule("R15.2", "every *Assign / DivRemAssign form reaches exactly the kernels of its value family; hand-written assign forms have the same effect summary as the value form")
     res.rule("R15.3", "delegating forms pass their operands in order (no swap in non-commutative families) and are pure adapters")
     res.rule("R15.4", "wrapper clone / clone_from delegate to the field's clone / clone_from")
+    res.rule("R15.5", "ownership-variant / mirrored sibling kernels of dashu-float (repr_round~repr_round_ref, repr_add_large_small~repr_add_small_large, add_val_val~.., split_digits~split_digits_ref) call the same kernels and pass identical decision terms to their shared callee")
     for P in programs:
         cfgname = P.name
         F = Forms(P)
@@ -189,6 +190,8 @@ def run(res, programs, tier):
         _r15_2(res, P, cfgname, F)
         _r15_3(res, P, cfgname, F)
         _r15_4(res, P, cfgname)
+        if "dashu_float" in P.units:
+            _r15_5(res, P, cfgname)
 
 
 def _r15_1(res, P, cfgname, F):
@@ -323,6 +326,68 @@ def _r15_3(res, P, cfgname, F):
             else:
                 res.fail("R15.3", cfgname, key, "primitive-operand form %s is not a pure adapter: %d delegations, kernels %s" % (p, len(dele), [k[0] for k in kern][:3]), span_loc(f["sp"]))
     res.floor("R15.3", cfgname, n, 1500, "delegation / kernel call sites judged")
+
+
+# ownership-variant siblings outside the operator traits: same algorithm, one by value / one by
+# reference (or lhs/rhs mirrored).  They must call the same kernels and hand the same decision terms
+# to their shared callees.
+SIBLINGS = [
+    ("dashu_float::repr::Context::<R>::repr_round", "dashu_float::repr::Context::<R>::repr_round_ref", None),
+    ("dashu_float::add::<impl dashu_float::repr::Context<R>>::repr_add_large_small",
+     "dashu_float::add::<impl dashu_float::repr::Context<R>>::repr_add_small_large",
+     ("dashu_float::add::<impl dashu_float::repr::Context<R>>::repr_round_sum", 4, "is_sub")),
+    ("dashu_float::add::add_val_val", "dashu_float::add::add_ref_ref", None),
+    ("dashu_float::add::add_val_ref", "dashu_float::add::add_ref_val", None),
+    ("dashu_float::utils::split_digits", "dashu_float::utils::split_digits_ref", None),
+]
+SIB_ALIAS = [(re.compile(r"_ref$"), ""), (re.compile(r"dashu_float::utils::shl_digits_in_place"), "dashu_float::utils::shl_digits"),
+             (re.compile(r"shr_digits_in_place"), "shr_digits"), (re.compile(r"split_bits_ref"), "split_bits")]
+SIB_IGNORE = ("as core::clone::Clone>::clone", "core::mem::", "::deref", "as core::convert::", "core::ops::arith::", "core::ops::bit::",
+              "core::cmp::", "core::panicking", "core::option::", "dashu_int::", "dashu_base::sign::")
+
+
+def _sib_calls(f):
+    out = set()
+    for bb, t, fr in mir.iter_calls(f["mir"]):
+        cp = fr and (fr.get("rp") or fr["p"])
+        if not cp or any(x in cp for x in SIB_IGNORE):
+            continue
+        if any(m.startswith("debug_assert") for m in mir.span_macros(t.get("sp", ""))):
+            continue
+        k = norm(cp)
+        for rx, rep in SIB_ALIAS:
+            k = rx.sub(rep, k)
+        out.add(k)
+    return out
+
+
+def _r15_5(res, P, cfgname):
+    fns = {f["p"]: f for f in P.fns("dashu_float")}
+    for a, b, shared in SIBLINGS:
+        fa, fb = fns.get(a), fns.get(b)
+        key = "%s ~ %s" % (a.rsplit("::", 1)[1], b.rsplit("::", 1)[1])
+        if fa is None or fb is None:
+            res.anchor("R15.5", cfgname, "sibling pair " + key)
+            continue
+        ca, cb = _sib_calls(fa), _sib_calls(fb)
+        if ca != cb:
+            res.fail("R15.5", cfgname, key, "sibling kernels %s and %s do not call the same functions: only in the first %s, only in the second %s" % (a, b, sorted(ca - cb)[:3], sorted(cb - ca)[:3]), span_loc(fb["sp"]))
+            continue
+        if shared:
+            callee, idx, what = shared
+            terms = []
+            for f in (fa, fb):
+                S = sym.Sym(f)
+                for bb, t, fr in mir.iter_calls(f["mir"]):
+                    if fr and (fr.get("rp") or fr["p"]) == callee:
+                        terms.append(sym.term_str(strip_bb(S.operand(t["a"][idx])), 400))
+            if len(terms) != 2:
+                res.anchor("R15.5", cfgname, "call of %s in both of %s" % (callee, key))
+                continue
+            if terms[0] != terms[1]:
+                res.fail("R15.5", cfgname, key + "|" + what, "mirror kernels disagree on `%s`: %s computes %s, %s computes %s" % (what, a.rsplit("::", 1)[1], terms[0][:160], b.rsplit("::", 1)[1], terms[1][:160]), span_loc(fb["sp"]))
+                continue
+        res.ok("R15.5", cfgname, key, sample=dict(pair=[a, b], shared_calls=sorted(ca)[:6]))
 
 
 def _r15_4(res, P, cfgname):
